@@ -69,7 +69,7 @@ theorem metaLoopH_abstract (fuel : Nat) (fr : Framer) (d : Hpack.Decoder) (st : 
   | zero => exact ⟨[], rfl⟩
   | succ n ih =>
     unfold metaLoopH
-    by_cases h1 : frag.length > 2 * st.remainSize % 4294967296
+    by_cases h1 : frag.length > 2 * st.remainSize
     · exact ⟨[], by simp [metaLoop, absLoop, h1]⟩
     by_cases h2 : st.invalid = true
     · exact ⟨[], by simp [metaLoop, absLoop, h1, h2]⟩
